@@ -224,9 +224,41 @@ pub struct Cfg {
     /// operations; by symmetry it must be indistinguishable from the main entity in every frame.
     /// `Some(true)` = spawned before the main entity.
     pub mirror: Option<bool>,
+    /// A lone animator of the *second* component type in a world that holds no component of that
+    /// type at all (only generated when `second` is None): `Animator<Other>` playing a 0 -> 1
+    /// timeline on an entity without `Other`; the component is inserted before frame
+    /// `insert_component_at`, or never. Every enabled animator keeps time and announces its state
+    /// changes, whether or not anything of its component type exists.
+    pub lone_other: Option<LoneOther>,
+    /// A side entity assembled in the other order: `Target` and an `AnimationSelector` (no chain)
+    /// first, the `Animator<Target>` only before frame `insert_at` (>= 1); the user then
+    /// re-assigns the selector's current key before the frames in `touch_at`. The key never
+    /// changes, so nothing may ever restart: the animator plays what it was built with.
+    pub late_animator: Option<LateAnimator>,
     pub order: Order,
     pub initial: Vals,
     pub grid: bool,
+}
+
+#[derive(Clone, Debug, PartialEq)]
+pub struct LoneOther {
+    pub spec: OtherSpec,
+    pub insert_component_at: Option<usize>,
+}
+
+#[derive(Clone, Debug, PartialEq)]
+pub struct LateAnimator {
+    /// timeline the animator is built with (index into `tls`), None = `Animator::new()`
+    pub tl: Option<usize>,
+    pub insert_at: usize,
+    pub touch_at: Vec<usize>,
+}
+
+impl Cfg {
+    /// Is `AnimationPlugin::<Other>` part of the app?
+    pub fn other_plugin(&self) -> bool {
+        self.second.is_some() || self.lone_other.is_some()
+    }
 }
 
 #[derive(Clone, Debug, PartialEq)]
@@ -333,6 +365,29 @@ pub fn scn_to_json(s: &BScn) -> Json {
             "orphan_animator_without_target",
             match c.orphan {
                 Some((tl, before)) => Json::obj().set("timeline", tl).set("spawned_first", before),
+                None => Json::Null,
+            },
+        )
+        .set(
+            "lone_animator_of_second_type",
+            match &c.lone_other {
+                Some(l) => Json::obj().set("timeline", other_to_json(&l.spec)).set(
+                    "component_inserted_before_frame",
+                    l.insert_component_at.map(Json::from).unwrap_or(Json::Null),
+                ),
+                None => Json::Null,
+            },
+        )
+        .set(
+            "entity_whose_animator_arrives_late",
+            match &c.late_animator {
+                Some(l) => Json::obj()
+                    .set("timeline", l.tl.map(Json::from).unwrap_or(Json::Null))
+                    .set("animator_inserted_before_frame", l.insert_at)
+                    .set(
+                        "current_key_reassigned_before_frames",
+                        Json::Arr(l.touch_at.iter().map(|f| Json::from(*f)).collect()),
+                    ),
                 None => Json::Null,
             },
         )
@@ -464,6 +519,32 @@ pub fn scn_from_json(j: &Json) -> Result<BScn, String> {
                 v.req("spawned_first")?.as_bool()?,
             )),
         },
+        lone_other: match c.get("lone_animator_of_second_type") {
+            None | Some(Json::Null) => None,
+            Some(v) => Some(LoneOther {
+                spec: other_from_json(v.req("timeline")?)?,
+                insert_component_at: match v.req("component_inserted_before_frame")? {
+                    Json::Null => None,
+                    f => Some(f.as_i64()? as usize),
+                },
+            }),
+        },
+        late_animator: match c.get("entity_whose_animator_arrives_late") {
+            None | Some(Json::Null) => None,
+            Some(v) => Some(LateAnimator {
+                tl: match v.req("timeline")? {
+                    Json::Null => None,
+                    t => Some(t.as_i64()? as usize),
+                },
+                insert_at: v.req("animator_inserted_before_frame")?.as_i64()? as usize,
+                touch_at: v
+                    .req("current_key_reassigned_before_frames")?
+                    .as_arr()?
+                    .iter()
+                    .map(|f| Ok(f.as_i64()? as usize))
+                    .collect::<Result<_, String>>()?,
+            }),
+        },
         mirror: match c.get("mirror_entity_spawned_before_main") {
             None | Some(Json::Null) => None,
             Some(v) => Some(v.as_bool()?),
@@ -540,6 +621,8 @@ pub struct SimWorld {
     pub extra: Option<Entity>,
     pub mirror: Option<Entity>,
     pub bystander: Entity,
+    pub lone_other: Option<Entity>,
+    pub late_animator: Option<Entity>,
     pub reader: bevy::ecs::event::ManualEventReader<AnimationStateChanged>,
     pub now: Instant,
 }
@@ -598,6 +681,17 @@ pub fn insert_selector(cfg: &Cfg, e: &mut bevy::ecs::world::EntityMut) {
     } else {
         e.insert(b.build());
     }
+    insert_chain_varied(cfg, e);
+}
+
+/// Only the selector, never a chain.
+pub fn insert_selector_only(cfg: &Cfg, e: &mut bevy::ecs::world::EntityMut) {
+    let mut without_chain = cfg.clone();
+    without_chain.chain = None;
+    insert_selector(&without_chain, e);
+}
+
+fn insert_chain_varied(cfg: &Cfg, e: &mut bevy::ecs::world::EntityMut) {
     if let Some(pairs) = &cfg.chain {
         // every public way of building a chain is used, depending on its shape
         if pairs.len() == 1 && pairs[0].1 == Key::default() {
@@ -658,11 +752,11 @@ pub fn build_world(cfg: &Cfg) -> SimWorld {
         app.add_event::<AnimationStateChanged>();
         register_keys(&mut app);
     }
-    if cfg.order.other_plugin_first && cfg.second.is_some() {
+    if cfg.order.other_plugin_first && cfg.other_plugin() {
         app.add_plugins(AnimationPlugin::<Other>::new());
     }
     app.add_plugins(AnimationPlugin::<Target>::new());
-    if !cfg.order.other_plugin_first && cfg.second.is_some() {
+    if !cfg.order.other_plugin_first && cfg.other_plugin() {
         app.add_plugins(AnimationPlugin::<Other>::new());
     }
     if cfg.selector && !cfg.order.register_before_plugin {
@@ -766,6 +860,15 @@ pub fn build_world(cfg: &Cfg) -> SimWorld {
         .world
         .spawn((target_of(&cfg.initial), Bystander { v: 42.0 }))
         .id();
+    let lone_other = cfg
+        .lone_other
+        .as_ref()
+        .map(|l| app.world.spawn(Animator::<Other>::with_timeline(build_other_tl(&l.spec))).id());
+    let late_animator = cfg.late_animator.as_ref().map(|_| {
+        let mut e = app.world.spawn(target_of(&cfg.initial));
+        insert_selector_only(cfg, &mut e);
+        e.id()
+    });
     let reader = app
         .world
         .resource::<Events<AnimationStateChanged>>()
@@ -776,6 +879,8 @@ pub fn build_world(cfg: &Cfg) -> SimWorld {
         extra,
         mirror,
         bystander,
+        lone_other,
+        late_animator,
         reader,
         now: base,
     }
